@@ -115,7 +115,7 @@ func runMinkowski(pattern, path Path, diff, closed bool) (Paths, []c2.VerifEvent
 	} else {
 		sol = c2.MinkowskiSum64(pattern, path, closed)
 	}
-	return sol, c2.VerifStopRecording()
+	return sol, stopRecording()
 }
 
 func judgeC08(c *C08Case, cx *Ctx) *Violation {
